@@ -104,8 +104,9 @@ end Res
 
 /-- the fold that Add/Sub run over `right` -/
 theorem foldl_set_getD (f : Int → Int → Int) (r : Res) (hw : wf r = true) (acc : Res) (k : String) :
-    (r.foldl (fun out p => out.set p.1 (f (out.getD p.1) p.2)) acc).getD k =
+    (zipFold f acc r).getD k =
       if has r k then f (acc.getD k) (getD r k) else acc.getD k := by
+  unfold zipFold
   induction r generalizing acc with
   | nil => simp
   | cons p t ih =>
@@ -118,7 +119,8 @@ theorem foldl_set_getD (f : Int → Int → Int) (r : Res) (hw : wf r = true) (a
     · simp [h]
 
 theorem foldl_set_has (f : Int → Int → Int) (r : Res) (acc : Res) (k : String) :
-    (r.foldl (fun out p => out.set p.1 (f (out.getD p.1) p.2)) acc).has k = (has acc k || has r k) := by
+    (zipFold f acc r).has k = (has acc k || has r k) := by
+  unfold zipFold
   induction r generalizing acc with
   | nil => simp
   | cons p t ih =>
@@ -140,6 +142,86 @@ theorem add_has (l r : Res) (k : String) : (add (some l) (some r)).has k = (has 
 
 theorem sub_has (l r : Res) (k : String) : (sub (some l) (some r)).has k = (has l k || has r k) := by
   unfold sub orZero; simp only [Option.getD_some]; exact foldl_set_has goSubVal r l k
+
+theorem getD_of_not_has {r : Res} {k : String} (h : has r k = false) : getD r k = 0 := by
+  rw [getD_eq_get?]; rw [has_eq_get?] at h
+  cases hg : get? r k <;> simp_all
+
+theorem addX_getD (l r : Res) (hw : wf r = true) (k : String) : (addX l r).getD k = l.getD k + r.getD k := by
+  unfold addX; rw [foldl_set_getD _ r hw l k]
+  by_cases h : has r k = true
+  · simp [h]
+  · have h' : has r k = false := by simpa using h
+    simp [h', getD_of_not_has h']
+
+theorem subX_getD (l r : Res) (hw : wf r = true) (k : String) : (subX l r).getD k = l.getD k - r.getD k := by
+  unfold subX; rw [foldl_set_getD _ r hw l k]
+  by_cases h : has r k = true
+  · simp [h]
+  · have h' : has r k = false := by simpa using h
+    simp [h', getD_of_not_has h']
+
+theorem prune_getD (r : Res) (hw : wf r = true) (k : String) : (prune r).getD k = r.getD k := by
+  induction r with
+  | nil => rfl
+  | cons p t ih =>
+    obtain ⟨a, b⟩ := p
+    rw [wf_cons] at hw
+    simp only [Bool.and_eq_true, Bool.not_eq_true'] at hw
+    have ih' := ih hw.2
+    unfold prune at *
+    rw [List.filter_cons]
+    by_cases hb : b = 0
+    · subst hb; simp only [bne_self_eq_false, Bool.false_eq_true, if_false, ih', getD_cons]
+      by_cases h : k = a
+      · subst h; simp [getD_of_not_has hw.1]
+      · simp [h]
+    · have : (b != 0) = true := by simp [hb]
+      simp only [this, if_true, getD_cons, ih']
+
+theorem set_wf (r : Res) (hw : wf r = true) (k : String) (v : Int) : wf (Res.set r k v) = true := by
+  induction r with
+  | nil => simp [Res.set, wf]
+  | cons p t ih =>
+    obtain ⟨a, b⟩ := p
+    rw [wf_cons] at hw
+    simp only [Bool.and_eq_true, Bool.not_eq_true'] at hw
+    unfold Res.set
+    by_cases h : a = k
+    · subst h; simp only [beq_self_eq_true, if_true, wf_cons, hw.1, hw.2]; rfl
+    · have : (a == k) = false := by simp [h]
+      simp only [this, Bool.false_eq_true, if_false, wf_cons, has_set, ih hw.2, hw.1]
+      have : ¬ a = k := h
+      simp [this]
+
+theorem zipFold_wf (f : Int → Int → Int) (l r : Res) (hw : wf l = true) : wf (zipFold f l r) = true := by
+  unfold zipFold
+  induction r generalizing l with
+  | nil => simpa
+  | cons p t ih => rw [List.foldl_cons]; exact ih _ (set_wf l hw _ _)
+
+theorem prune_wf (r : Res) (hw : wf r = true) : wf (prune r) = true := by
+  induction r with
+  | nil => rfl
+  | cons p t ih =>
+    obtain ⟨a, b⟩ := p
+    rw [wf_cons] at hw
+    simp only [Bool.and_eq_true, Bool.not_eq_true'] at hw
+    have ih' := ih hw.2
+    unfold prune at *
+    rw [List.filter_cons]
+    split
+    · rw [wf_cons, ih']
+      have : has (List.filter (fun p => p.2 != 0) t) a = false := by
+        have h1 := hw.1
+        rw [Bool.eq_false_iff] at h1 ⊢
+        intro hc; apply h1
+        rw [has_iff_mem_keys] at hc ⊢
+        simp only [keys, List.mem_map] at hc ⊢
+        obtain ⟨q, hq, hqa⟩ := hc
+        exact ⟨q, (List.mem_filter.mp hq).1, hqa⟩
+      simp [this]
+    · exact ih'
 
 /-- all values are int64 -/
 def allInR (r : Res) : Prop := ∀ p ∈ r, inR p.2
